@@ -31,18 +31,28 @@ var safetyKinds = map[string]bool{
 }
 
 func newUnit(sh *Shared, cs *ContractSet, fn *ssa.Function) *Unit {
+	return newUnitMode(sh, cs, fn, false)
+}
+
+// newUnitMode: asImpl = verify fn against the contract of the interface method it implements although it has a
+// contract of its own (the loop / callback annotations of its own contract are kept).
+func newUnitMode(sh *Shared, cs *ContractSet, fn *ssa.Function, asImpl bool) *Unit {
 	w := newWorldShared(sh)
 	key := funcKey(fn)
 	u := &Unit{w: w, cs: cs, root: fn, rootKey: key, contract: cs.ByKey[key],
 		notes: map[string]int{}, trustedUsed: map[string]int{}, inlined: map[string]int{}, declared: map[string]bool{}, oblNames: map[string]int{},
 		logical: map[string]envEntry{}, features: map[string]bool{}, libAssumed: map[string]int{}, unknownCalls: map[string]int{},
 		contractsUsed: map[string]int{}, typeInvUsed: map[string]int{}, termOrigin: map[string]string{}, guardedTerm: map[string]guardedVal{}, epochAlloc: map[int]Term{}, closureTerms: map[string]*closureVal{}, pureFnTerms: map[string]string{}, escapeMemo: map[*ssa.Alloc]bool{}, fnConsts: map[string]*ssa.Function{}}
-	if u.contract == nil {
+	if u.contract == nil || asImpl {
 		if ic, alias := ifaceContractFor(sh, cs, fn); ic != nil {
 			// behavioural subtyping: the implementation is verified against the interface method's contract
 			cp := *ic
 			cp.Trusted = false
 			cp.Reason = ""
+			if own := u.contract; own != nil {
+				cp.Loops, cp.Callbacks, cp.Held, cp.HeldPost, cp.Logical = own.Loops, own.Callbacks, own.Held, own.HeldPost, own.Logical
+				u.rootKey = key + "@" + ic.Key
+			}
 			u.contract = &cp
 			u.paramAlias = alias
 			u.implOf = ic.Key
@@ -169,6 +179,7 @@ func main() {
 
 	// units: all top-level repo functions
 	var fns []*ssa.Function
+	implVariant := map[int]bool{}
 	for _, fn := range sh.repoFuncs {
 		if fn.Parent() != nil || len(fn.Blocks) == 0 {
 			continue
@@ -221,6 +232,20 @@ func main() {
 		fns = append(fns, fn)
 	}
 	sort.Slice(fns, func(i, j int) bool { return funcKey(fns[i]) < funcKey(fns[j]) })
+	// an implementation of a contracted interface method that has a contract of its own is verified twice:
+	// against its own contract, and against the interface's (behavioural subtyping)
+	for _, fn := range append([]*ssa.Function(nil), fns...) {
+		if fn.Parent() != nil || cs.ByKey[funcKey(fn)] == nil {
+			continue
+		}
+		if ic, _ := ifaceContractFor(sh, cs, fn); ic != nil {
+			if !wantProp(ic.Props) {
+				continue
+			}
+			implVariant[len(fns)] = true
+			fns = append(fns, fn)
+		}
+	}
 
 	results := make([]*unitResult, len(fns))
 	var wg sync.WaitGroup
@@ -233,7 +258,7 @@ func main() {
 			defer wg.Done()
 			defer func() { <-sem }()
 			ts := time.Now()
-			u := newUnit(sh, cs, fn)
+			u := newUnitMode(sh, cs, fn, implVariant[i])
 			r := &unitResult{Key: u.rootKey, Unit: u}
 			if u.contract != nil && u.contract.Trusted {
 				r.Skipped = "trusted: " + u.contract.Reason
